@@ -614,4 +614,73 @@ theorem inca_rdot_is_time_derivative (c : Coa ℝ) (rCaScp : ℝ) (timeCA : List
   have hs := (Real.sqrt_pos.mpr hpos).ne'
   field_simp
 
+
+/-! ### the stored COA projection: which adjustable parameters the structure's own methods use after any history of definitions -/
+section CoaCache
+variable {P : Type}
+
+theorem coaDefine_override (st : Option P) (p : P) : coaDefine st (p, true) = some p := by
+  simp [coaDefine]
+
+theorem coaDefine_fresh (p : P) (o : Bool) : coaDefine (none : Option P) (p, o) = some p := by
+  simp [coaDefine]
+
+theorem coaDefine_keep (q p : P) : coaDefine (some q) (p, false) = some q := by
+  simp [coaDefine]
+
+/-- after any history that ends with an overriding definition, exactly that definition is in effect -/
+theorem coaRun_last_override (ops : List (P × Bool)) (p : P) : coaRun (ops ++ [(p, true)]) = some p := by
+  simp [coaRun, List.foldl_append, coaDefine_override]
+
+/-- a non-overriding definition changes nothing once something is stored, and stores its parameters on a fresh structure -/
+theorem coaRun_snoc_keep (ops : List (P × Bool)) (p : P) :
+    coaRun (ops ++ [(p, false)]) = (match coaRun ops with | some q => some q | none => some p) := by
+  simp only [coaRun, List.foldl_append, List.foldl_cons, List.foldl_nil]
+  cases h : List.foldl coaDefine none ops <;> simp [coaDefine]
+
+/-- the projection in effect is always one that some call supplied: the last overriding call, or the first call if none overrides -/
+theorem coaRun_mem (ops : List (P × Bool)) (q : P) (h : coaRun ops = some q) : ∃ o, (q, o) ∈ ops := by
+  induction ops using List.reverseRecOn generalizing q with
+  | nil => simp [coaRun] at h
+  | append_singleton ops op ih =>
+    obtain ⟨p, o⟩ := op
+    cases o with
+    | true =>
+      rw [coaRun_last_override] at h
+      have hq : p = q := Option.some.inj h
+      subst hq
+      exact ⟨true, by simp⟩
+    | false =>
+      rw [coaRun_snoc_keep] at h
+      cases h2 : coaRun ops with
+      | none =>
+        rw [h2] at h
+        have hq : p = q := Option.some.inj h
+        subst hq
+        exact ⟨false, by simp⟩
+      | some r =>
+        rw [h2] at h
+        have hq : r = q := Option.some.inj h
+        subst hq
+        obtain ⟨o', ho'⟩ := ih r h2
+        exact ⟨o', by simp [ho']⟩
+
+theorem coaRun_isSome (ops : List (P × Bool)) (h : ops ≠ []) : (coaRun ops).isSome := by
+  induction ops using List.reverseRecOn with
+  | nil => exact absurd rfl h
+  | append_singleton ops op _ =>
+    obtain ⟨p, o⟩ := op
+    cases o with
+    | true => simp [coaRun_last_override]
+    | false => rw [coaRun_snoc_keep]; cases coaRun ops <;> simp
+
+/-- a method call (which defines the default projection without overriding) never replaces what a definition stored -/
+theorem coaUsed_after_method (dflt : P) (ops : List (P × Bool)) :
+    coaUsed dflt (coaRun (ops ++ [(dflt, false)])) = coaUsed dflt (coaRun ops) := by
+  rw [coaRun_snoc_keep]; cases coaRun ops <;> rfl
+
+example : coaRun [((1 : Nat), true), (2, false), (3, true), (4, false)] = some 3 := by decide
+example : coaRun [((1 : Nat), false), (2, false)] = some 1 := by decide
+end CoaCache
+
 end Sarpy.Props.C04
